@@ -25,7 +25,7 @@ type C09Sc struct {
 }
 
 var c09Outcomes = []ItemSc{
-	{Tok: "ok"}, {Tok: "et"}, {Tok: "ep"}, {Tok: "pe"}, {Tok: "ps"}, {Tok: "pi"}, {Op: "unrouted", Tok: "ok"}, {Tok: "ok", Ext: "critical"}, {Op: "discover", Tok: "ok"},
+	{Tok: "ok"}, {Tok: "et"}, {Tok: "ep"}, {Tok: "pe"}, {Tok: "ps"}, {Tok: "pi"}, {Op: "unrouted", Tok: "ok"}, {Tok: "ok", Ext: "critical"}, {Op: "discover", Tok: "ok"}, {Op: "unknown", Tok: "ok"},
 	{Tok: "pS"}, {Tok: "pn"}, {Tok: "ok", Ext: "plain"}, {Tok: "y1,ok"}, {Tok: "y2,et"}, {Tok: "pk"}, {Tok: "pK"}, {Tok: "pm"},
 }
 
